@@ -100,7 +100,9 @@ fn resolve_array_mut(v: &mut Variant, indices: Vec<Variant>) -> Result<&mut Vari
                 .get_element_mut(&int_indices)
                 .map_err(RuntimeError::from)
         }
-        _ => panic!("Expected array, found {:?}", v),
+        // the DIM of this array has not been executed (it sits in a branch
+        // that was not taken): the array has no elements yet
+        _ => Err(RuntimeError::SubscriptOutOfRange),
     }
 }
 
